@@ -95,6 +95,13 @@ type explorer struct {
 	sampleMu sync.Mutex
 }
 
+func (x *explorer) hFor(worker int, sc *scenario) *harness {
+	if ks := kindSpecs[sc.Kind]; ks != nil && ks.Adopt {
+		return newHarness() // the target is a built-in of the runtime: never reuse
+	}
+	return x.h(worker)
+}
+
 func (x *explorer) h(worker int) *harness {
 	if x.harness[worker] == nil || x.harness[worker].dirty || x.harness[worker].worlds > 200000 {
 		x.harness[worker] = newHarness()
@@ -208,12 +215,27 @@ func preClass(m *mworld, op Op) string {
 	}
 	t := m.role[op.Tg]
 	p, has := t.GetOwnProperty(m.key(op.K))
+	if op.T == opGOPD || op.T == opHas {
+		switch {
+		case !has:
+			return "absent"
+		case p.Accessor:
+			return "acc"
+		}
+		return "data"
+	}
 	if op.T == opSet || op.T == opGet {
 		s := accessClass(p, has, op.T == opSet)
 		if !has && !t.IsExtensible() {
 			s += ",nonext"
 		}
 		return s
+	}
+	if op.T == opDelete {
+		if !has {
+			return "absent"
+		}
+		return "present:c" + b01(p.C)
 	}
 	s := propClass(p, has)
 	if op.T == opDefine && has && p.Accessor {
@@ -369,6 +391,9 @@ func normResult(op Op, res string) string {
 	switch op.T {
 	case opDefine, opSet, opDelete, opPreventExt, opFreeze, opSeal, opSetProto:
 		boolRoute := op.Rt == rtReflect || op.Rt == rtReflectRecv || (op.T == opDelete && (op.Rt == rtSyntax || op.Rt == rtStatic))
+		if op.T == opSet && (op.Rt == rtSyntax || op.Rt == rtStatic) && res == "ok" {
+			res = "done" // a sloppy assignment does not tell whether [[Set]] succeeded
+		}
 		switch {
 		case res == "ok" || res == "true":
 			res = "accepted"
@@ -379,9 +404,36 @@ func normResult(op Op, res string) string {
 		}
 	case opObserve:
 		res = "observation"
+	case opGOPD:
+		switch {
+		case res == "none":
+		case strings.HasPrefix(res, "d("):
+			res = "data-descriptor"
+		case strings.HasPrefix(res, "a("):
+			res = "accessor-descriptor"
+		}
+	case opGet:
+		switch {
+		case res == "undefined", strings.HasPrefix(res, "throw:"):
+		case res == "\"rf\"" || res == "\"rg\"":
+			res = "getter-result"
+		default:
+			res = "value"
+		}
 	}
 	if hasLog {
-		res += " calls[" + strings.TrimSuffix(log, "]") + "]"
+		// which user functions ran, without the concrete function / receiver / value
+		var calls []string
+		for _, c := range strings.Split(strings.TrimSuffix(log, "]"), ";") {
+			if i := strings.IndexByte(c, '('); i > 0 {
+				c = c[:i]
+			}
+			if j := strings.IndexByte(c, '.'); j >= 0 {
+				c = c[j+1:]
+			}
+			calls = append(calls, c)
+		}
+		res += " calls[" + strings.Join(calls, ";") + "]"
 	}
 	return res
 }
@@ -499,6 +551,14 @@ func abstractDiff(impl, model string) string {
 	return "?"
 }
 
+// freshIf: kinds whose target is a built-in object of the runtime need a pristine runtime for every run.
+func freshIf(h *harness, sc *scenario) *harness {
+	if ks := kindSpecs[sc.Kind]; ks != nil && ks.Adopt {
+		return newHarness()
+	}
+	return h
+}
+
 // runPath builds fresh worlds and replays path on both sides without observing anything in between.
 func runPath(h *harness, sc *scenario, path []Op) (*world, *mworld) {
 	w := h.newWorld(sc.Kind, sc.Variant, sc.ChainKeys)
@@ -542,6 +602,11 @@ func transitionRef(h *harness, sc *scenario, path []Op, op Op, ref *Op, preDump 
 		inv = "; essential invariant violated: " + strings.Join(anomalies, ", ")
 	}
 	where := fmt.Sprintf("%s on %s/%s after [%s]: ", op, sc.Kind, sc.Variant, pathString(path))
+	if strings.HasPrefix(implRes, "gopanic:") {
+		mm := "go-panic"
+		fail = &failure{fine: fine + mm, mismatch: mm, what: where + "the operation crashes the host with a Go panic (" + strings.TrimPrefix(implRes, "gopanic:") + ")"}
+		return fail, dump, key
+	}
 	if m != nil {
 		modelRes := m.exec(op)
 		if op.T == opForIn {
@@ -551,6 +616,9 @@ func transitionRef(h *harness, sc *scenario, path []Op, op Op, ref *Op, preDump 
 		switch {
 		case implRes != modelRes:
 			mm := "result impl=" + normResult(op, implRes) + " model=" + normResult(op, modelRes)
+			if normResult(op, implRes) == normResult(op, modelRes) {
+				mm += " (details differ)"
+			}
 			switch op.T {
 			case opObserve:
 				mm = "observation " + abstractDiff(implRes, modelRes)
@@ -565,6 +633,12 @@ func transitionRef(h *harness, sc *scenario, path []Op, op Op, ref *Op, preDump 
 			fail = &failure{fine: fine + mm, mismatch: mm, what: where + "result " + implRes + ", specification " + modelRes + inv}
 		case md != dump:
 			mm := "state " + abstractDiff(dump, md)
+			if strings.Contains(mm, ".flag impl=z") {
+				// only Object.isFrozen / Object.isSealed answer wrongly: that is a defect of those tests, whatever
+				// operation led to the state
+				class := kindSpecs[sc.Kind].Class
+				fine = routeNames[rtReflect] + "|" + class + "|isFrozen/isSealed|"
+			}
 			if len(anomalies) > 0 {
 				mm += " invariant(" + anomalies[0] + ")"
 			}
@@ -581,6 +655,9 @@ func transitionRef(h *harness, sc *scenario, path []Op, op Op, ref *Op, preDump 
 		refRes := w2.exec(*ref)
 		refDump, _ := realDump(w2)
 		a, b := normResult(op, implRes), normResult(*ref, refRes)
+		if strings.HasPrefix(a, "done") && (strings.HasPrefix(b, "accepted") || strings.HasPrefix(b, "rejected")) {
+			a = b[:8] + a[4:]
+		}
 		switch {
 		case a != b:
 			mm := fmt.Sprintf("routes disagree: %s=%s %s=%s", routeLabel(op), a, routeLabel(*ref), b)
@@ -663,7 +740,20 @@ func preFromDump(pre string, op Op) string {
 func hostArg(op Op) string {
 	switch op.T {
 	case opDefine:
-		return descs[op.D].class()
+		d := descs[op.D]
+		switch {
+		case d.Invalid():
+			return "invalid-descriptor"
+		case d.Accessor():
+			return "accessor"
+		case d.Val >= 0 || d.W != flAbsent:
+			s := "data"
+			if d.Val < 0 {
+				s += "(no value)"
+			}
+			return s
+		}
+		return "generic"
 	case opSet:
 		if op.Rt == rtReflectRecv {
 			return "recv=" + roleNames[op.Rc]
@@ -691,206 +781,183 @@ func stillFailsRef(hp func() *harness, sc *scenario, path []Op, op Op, ref *Op, 
 		}
 	}()
 	h := hp()
-	w, _ := runPath(h, sc, path)
+	w, m := runPath(h, sc, path)
 	pre, _ := realDump(w)
-	f, _, _ := transitionRef(h, sc, path, op, ref, pre)
+	if m != nil && modelDump(m) != pre {
+		return nil // not a valid witness: model and implementation already disagree before the step
+	}
+	f, _, _ := transitionRef(freshIf(h, sc), sc, path, op, ref, pre)
 	if f != nil && f.mismatch == mismatch {
 		return f
 	}
 	return nil
 }
 
-// minimize reduces a failing transition to a canonical small witness with the same mismatch class:
-// simplest kind, plain chain, Reflect route, plain string key, shortest path, smallest descriptor.
-func minimize(h func() *harness, sc *scenario, path []Op, op Op, ref *Op, f *failure) (*scenario, []Op, Op, *Op, *failure) {
-	cur := &scenario{Name: sc.Name, Kind: sc.Kind, Variant: sc.Variant, ChainKeys: sc.ChainKeys, NoModel: sc.NoModel, InitOrder: sc.InitOrder}
-	try := func(nsc *scenario, npath []Op, nop Op) bool {
-		nref := ref
-		if ref != nil && nop.T == opDefine && ref.T == opDefine && nop.D != ref.D {
-			r2 := *ref
-			r2.D = nop.D
-			nref = &r2
-		}
-		if g := stillFailsRef(h, nsc, npath, nop, nref, f.mismatch); g != nil {
-			cur, path, op, ref, f = nsc, npath, nop, nref, g
-			return true
-		}
-		return false
-	}
-	with := func(kind, variant string) *scenario {
-		n := &scenario{Name: cur.Name, Kind: kind, Variant: variant, ChainKeys: cur.ChainKeys, NoModel: cur.NoModel}
-		if kind == cur.Kind {
-			n.InitOrder = cur.InitOrder
-		}
-		return n
-	}
-	mapOps := func(fn func(Op) Op) ([]Op, Op) {
-		np := make([]Op, len(path))
-		for i, o := range path {
-			np[i] = fn(o)
-		}
-		return np, fn(op)
-	}
-	if !cur.NoModel {
-		if cur.Kind != "plain" {
-			try(with("plain", cur.Variant), path, op)
-		}
-		if cur.Variant != "chain" {
-			try(with(cur.Kind, "chain"), path, op)
-		}
-	}
-	// key: a plain string key, everywhere in the case
-	if !cur.NoModel && op.K >= 0 && keys[op.K].Name != `"a"` {
-		from := op.K
-		canon := keys[from].Str
-		isSym := keys[from].Kind == spSym
-		np, nop := mapOps(func(o Op) Op {
-			if o.K >= 0 && o.K < len(keys) && ((isSym && o.K == from) || (!isSym && keys[o.K].Kind != spSym && keys[o.K].Str == canon)) {
-				o.K = K(`"a"`)
-				if o.Rt == rtStatic {
-					o.Rt = rtSyntax
-				}
-				if o.Rt == rtStaticStrict {
-					o.Rt = rtSyntaxStrict
-				}
-			}
-			return o
-		})
-		nsc := with(cur.Kind, cur.Variant)
-		nsc.ChainKeys = []int{K(`"a"`)}
-		try(nsc, np, nop)
-	}
-	// target / receiver: the object itself
-	if !cur.NoModel {
-		minimizeRoutes(&op, &path, try, func() *scenario { return cur })
-	}
-	minimizePathAndArgs(&op, &path, try, func() *scenario { return cur })
-	return cur, path, op, ref, f
+// minimizer reduces a failing transition to a canonical small witness with the same mismatch class: simplest
+// kind, plain chain, plain string key, the object itself as target and receiver, Reflect route, shortest path,
+// smallest descriptor. A candidate is valid only if model and implementation agree before its last step.
+type minimizer struct {
+	hp   func() *harness
+	sc   *scenario
+	path []Op
+	op   Op
+	ref  *Op
+	f    *failure
 }
 
-// minimizeRoutes: target / receiver -> the object itself, routes -> Reflect.
-func minimizeRoutes(opp *Op, pathp *[]Op, try func(*scenario, []Op, Op) bool, curf func() *scenario) {
-	op, path := *opp, *pathp
-	defer func() { *opp, *pathp = op, path }()
-	cur := curf()
-	mapOps := func(fn func(Op) Op) ([]Op, Op) {
-		np := make([]Op, len(path))
-		for i, o := range path {
-			np[i] = fn(o)
-		}
-		return np, fn(op)
+func (z *minimizer) try(nsc *scenario, npath []Op, nop Op) bool {
+	nref := z.ref
+	if z.ref != nil && nop.T == opDefine && z.ref.T == opDefine && nop.D != z.ref.D {
+		r2 := *z.ref
+		r2.D = nop.D
+		nref = &r2
 	}
-	accept := func(nsc *scenario, np []Op, nop Op) bool {
-		if try(nsc, np, nop) {
-			path, op = np, nop
-			return true
-		}
-		return false
+	if g := stillFailsRef(z.hp, nsc, npath, nop, nref, z.f.mismatch); g != nil {
+		z.sc, z.path, z.op, z.ref, z.f = nsc, npath, nop, nref, g
+		return true
 	}
-	if op.Tg == obChild {
-		n := op
-		n.Tg = obO
-		if !try(cur, path, n) && op.Rt == rtReflectRecv && op.Rc != obChild {
-			n.Rc = obO // keep "receiver differs from target"
-			if op.Rc == obO {
-				n.Rc = obChild
+	return false
+}
+
+func (z *minimizer) with(kind, variant string) *scenario {
+	n := &scenario{Name: z.sc.Name, Kind: kind, Variant: variant, ChainKeys: z.sc.ChainKeys, NoModel: z.sc.NoModel}
+	if kind == z.sc.Kind {
+		n.InitOrder = z.sc.InitOrder
+	}
+	return n
+}
+
+func (z *minimizer) mapOps(fn func(Op) Op) ([]Op, Op) {
+	np := make([]Op, len(z.path))
+	for i, o := range z.path {
+		np[i] = fn(o)
+	}
+	return np, fn(z.op)
+}
+
+func simplerOps(o Op) []Op {
+	var res []Op
+	if o.T == opDefine {
+		d := descs[o.D]
+		for _, nd := range []descSpec{
+			{W: flAbsent, E: d.E, C: d.C, Val: d.Val, Get: d.Get, Set: d.Set, BadGet: d.BadGet},
+			{W: d.W, E: flAbsent, C: d.C, Val: d.Val, Get: d.Get, Set: d.Set, BadGet: d.BadGet},
+			{W: d.W, E: d.E, C: flAbsent, Val: d.Val, Get: d.Get, Set: d.Set, BadGet: d.BadGet},
+			{W: d.W, E: d.E, C: d.C, Val: -1, Get: d.Get, Set: d.Set, BadGet: d.BadGet},
+			{W: d.W, E: d.E, C: d.C, Val: d.Val, Get: fnAbsent, Set: d.Set, BadGet: d.BadGet},
+			{W: d.W, E: d.E, C: d.C, Val: d.Val, Get: d.Get, Set: fnAbsent, BadGet: d.BadGet},
+			{W: d.W, E: d.E, C: d.C, Val: v1, Get: d.Get, Set: d.Set, BadGet: d.BadGet},
+			{W: d.W, E: d.E, C: d.C, Val: d.Val, Get: fnA, Set: d.Set, BadGet: d.BadGet},
+			{W: d.W, E: d.E, C: d.C, Val: d.Val, Get: d.Get, Set: fnA, BadGet: d.BadGet},
+		} {
+			if nd == d || (nd.Val == v1 && d.Val < 0) || (nd.Get == fnA && d.Get != fnB) || (nd.Set == fnA && d.Set != fnB) {
+				continue
+			}
+			if i, ok := descIndex[nd]; ok {
+				n := o
+				n.D = i
+				res = append(res, n)
 			}
 		}
 	}
-	if op.Rt == rtReflectRecv {
-		n := op
-		n.Rt, n.Rc = rtReflect, 0
-		if !try(cur, path, n) {
-			for _, rc := range []uint8{obChild, obParent} {
-				if rc < op.Rc {
-					n = op
-					n.Rc = rc
-					if try(cur, path, n) {
-						break
+	if (o.T == opSet || o.T == opSetFormal) && o.V != v1 {
+		n := o
+		n.V = v1
+		res = append(res, n)
+	}
+	return res
+}
+
+func minimize(hp func() *harness, sc *scenario, path []Op, op Op, ref *Op, f *failure) (*scenario, []Op, Op, *Op, *failure) {
+	if !strings.Contains(f.mismatch, "routes disagree") {
+		ref = nil // the reference route plays no part in this failure
+	}
+	z := &minimizer{hp: hp, path: path, op: op, ref: ref, f: f,
+		sc: &scenario{Name: sc.Name, Kind: sc.Kind, Variant: sc.Variant, ChainKeys: sc.ChainKeys, NoModel: sc.NoModel, InitOrder: sc.InitOrder}}
+	if !z.sc.NoModel {
+		if z.sc.Kind != "plain" {
+			z.try(z.with("plain", z.sc.Variant), z.path, z.op)
+		}
+		if z.sc.Variant != "chain" {
+			z.try(z.with(z.sc.Kind, "chain"), z.path, z.op)
+		}
+	}
+	if z.ref == nil {
+		// key: a plain string key, everywhere in the case
+		if !z.sc.NoModel && z.op.K >= 0 && keys[z.op.K].Name != `"a"` {
+			from := z.op.K
+			canon := keys[from].Str
+			isSym := keys[from].Kind == spSym
+			np, nop := z.mapOps(func(o Op) Op {
+				if o.K >= 0 && o.K < len(keys) && ((isSym && o.K == from) || (!isSym && keys[o.K].Kind != spSym && keys[o.K].Str == canon)) {
+					o.K = K(`"a"`)
+					if o.Rt == rtStatic {
+						o.Rt = rtSyntax
+					}
+					if o.Rt == rtStaticStrict {
+						o.Rt = rtSyntaxStrict
+					}
+				}
+				return o
+			})
+			nsc := z.with(z.sc.Kind, z.sc.Variant)
+			nsc.ChainKeys = []int{K(`"a"`)}
+			z.try(nsc, np, nop)
+		}
+		// target / receiver: the object itself
+		if z.op.Tg == obChild {
+			n := z.op
+			n.Tg = obO
+			z.try(z.sc, z.path, n)
+		}
+		if z.op.Rt == rtReflectRecv {
+			n := z.op
+			n.Rt, n.Rc = rtReflect, 0
+			if !z.try(z.sc, z.path, n) {
+				for _, rc := range []uint8{obChild, obParent} {
+					if rc < z.op.Rc {
+						n = z.op
+						n.Rc = rc
+						if z.try(z.sc, z.path, n) {
+							break
+						}
 					}
 				}
 			}
 		}
-	}
-	// routes: Reflect where the operation has one
-	reroute := func(o Op) Op {
-		switch o.T {
-		case opDefine, opDelete, opPreventExt, opSetProto:
-			o.Rt = rtReflect
-		case opSet, opGet:
-			if o.Rt != rtReflectRecv {
+		// routes: Reflect where the operation has one
+		reroute := func(o Op) Op {
+			switch o.T {
+			case opDefine, opDelete, opPreventExt, opSetProto:
 				o.Rt = rtReflect
+			case opSet, opGet:
+				if o.Rt != rtReflectRecv {
+					o.Rt = rtReflect
+				}
 			}
+			return o
 		}
-		return o
-	}
-	if np, nop := mapOps(reroute); true {
-		if !try(cur, np, nop) {
-			try(cur, np, op) // at least the path
+		np, nop := z.mapOps(reroute)
+		if !z.try(z.sc, np, nop) {
+			z.try(z.sc, np, z.op) // at least the path
 		}
-	}
-}
-
-// minimizePathAndArgs: drop path operations greedily, then shrink descriptors and values.
-func minimizePathAndArgs(opp *Op, pathp *[]Op, try func(*scenario, []Op, Op) bool, curf func() *scenario) {
-	op, path := *opp, *pathp
-	defer func() { *opp, *pathp = op, path }()
-	cur := curf()
-	accept := func(nsc *scenario, np []Op, nop Op) bool {
-		if try(nsc, np, nop) {
-			path, op = np, nop
-			return true
-		}
-		return false
 	}
 	// path: drop operations greedily
 	for changed := true; changed; {
 		changed = false
-		for i := range path {
-			np := append(append([]Op{}, path[:i]...), path[i+1:]...)
-			if try(cur, np, op) {
+		for i := range z.path {
+			np := append(append([]Op{}, z.path[:i]...), z.path[i+1:]...)
+			if z.try(z.sc, np, z.op) {
 				changed = true
 				break
 			}
 		}
 	}
 	// descriptors: drop fields / use the first function / the first value
-	simplify := func(o Op) []Op {
-		var res []Op
-		if o.T == opDefine {
-			d := descs[o.D]
-			for _, nd := range []descSpec{
-				{W: flAbsent, E: d.E, C: d.C, Val: d.Val, Get: d.Get, Set: d.Set, BadGet: d.BadGet},
-				{W: d.W, E: flAbsent, C: d.C, Val: d.Val, Get: d.Get, Set: d.Set, BadGet: d.BadGet},
-				{W: d.W, E: d.E, C: flAbsent, Val: d.Val, Get: d.Get, Set: d.Set, BadGet: d.BadGet},
-				{W: d.W, E: d.E, C: d.C, Val: -1, Get: d.Get, Set: d.Set, BadGet: d.BadGet},
-				{W: d.W, E: d.E, C: d.C, Val: d.Val, Get: fnAbsent, Set: d.Set, BadGet: d.BadGet},
-				{W: d.W, E: d.E, C: d.C, Val: d.Val, Get: d.Get, Set: fnAbsent, BadGet: d.BadGet},
-				{W: d.W, E: d.E, C: d.C, Val: v1, Get: d.Get, Set: d.Set, BadGet: d.BadGet},
-				{W: d.W, E: d.E, C: d.C, Val: d.Val, Get: fnA, Set: d.Set, BadGet: d.BadGet},
-				{W: d.W, E: d.E, C: d.C, Val: d.Val, Get: d.Get, Set: fnA, BadGet: d.BadGet},
-			} {
-				if nd == d || (nd.Val == v1 && d.Val < 0) || (nd.Get == fnA && d.Get != fnB) || (nd.Set == fnA && d.Set != fnB) {
-					continue
-				}
-				if i, ok := descIndex[nd]; ok {
-					n := o
-					n.D = i
-					res = append(res, n)
-				}
-			}
-		}
-		if (o.T == opSet || o.T == opSetFormal) && o.V != v1 {
-			n := o
-			n.V = v1
-			res = append(res, n)
-		}
-		return res
-	}
 	for changed := true; changed; {
 		changed = false
-		for _, c := range simplify(op) {
-			if try(cur, path, c) {
+		for _, c := range simplerOps(z.op) {
+			if z.try(z.sc, z.path, c) {
 				changed = true
 				break
 			}
@@ -899,18 +966,18 @@ func minimizePathAndArgs(opp *Op, pathp *[]Op, try func(*scenario, []Op, Op) boo
 			continue
 		}
 	outer:
-		for i := range path {
-			for _, c := range simplify(path[i]) {
-				np := append([]Op{}, path...)
+		for i := range z.path {
+			for _, c := range simplerOps(z.path[i]) {
+				np := append([]Op{}, z.path...)
 				np[i] = c
-				if try(cur, np, op) {
+				if z.try(z.sc, np, z.op) {
 					changed = true
 					break outer
 				}
 			}
 		}
 	}
-	return cur, path, op, ref, f
+	return z.sc, z.path, z.op, z.ref, z.f
 }
 
 func routeLabel(op Op) string {
@@ -936,7 +1003,7 @@ func routePrefix(op Op) string {
 // report canonicalises a failure (once per fine-grained class), confirms the canonical witness 5x on fresh
 // runtimes, and records it under the witness's signature.
 func (x *explorer) report(worker int, sc *scenario, path []Op, op Op, ref *Op, f *failure) {
-	h := func() *harness { return x.h(worker) }
+	h := func() *harness { return x.hFor(worker, sc) }
 	memoKey := sc.Kind + "/" + sc.Variant + "|" + f.fine
 	x.mu.Lock()
 	e, ok := x.memo[memoKey]
@@ -947,11 +1014,8 @@ func (x *explorer) report(worker int, sc *scenario, path []Op, op Op, ref *Op, f
 		e = &memoEntry{sig: sig, what: mf.what, c: makeCase(msc, mpath, mop)}
 		e.c.Ref = mref
 		e.sig = routePrefix(mop) + sig
-		if msc.NoModel {
+		if msc.NoModel && strings.Contains(mf.mismatch, "routes disagree") {
 			e.sig = sig
-			if !strings.Contains(mf.mismatch, "routes disagree") {
-				e.sig = routeNames[mop.Rt] + "|" + sig
-			}
 		}
 		x.mu.Lock()
 		confirmed := x.confirm[e.sig]
@@ -977,6 +1041,19 @@ func (x *explorer) report(worker int, sc *scenario, path []Op, op Op, ref *Op, f
 // reported and then adopted (sc.InitOrder) so that the search can continue; any other difference ends the search.
 func (x *explorer) checkInitial(h *harness, sc *scenario, d0 string) bool {
 	m0 := newModelWorld(kindSpecs[sc.Kind], sc.Variant, sc.ChainKeys)
+	if strings.HasPrefix(sc.Variant, "natural") {
+		// the model of the built-in prototype must know every probed key the real one has
+		w := h.newWorld(sc.Kind, sc.Variant, sc.ChainKeys)
+		proto := w.role[obO].Prototype()
+		for _, k := range sc.ChainKeys {
+			real := proto != nil && w.call("hasIn", proto, h.keyVals[k]) == "true"
+			model := m0.role[obO].Proto != nil && m0.role[obO].Proto.HasProperty(m0.key(k))
+			if real != model {
+				x.r.Violation("check-config|natural prototype", fmt.Sprintf("the model of the built-in prototype of %s disagrees with the real one about key %s (real %v, model %v)", sc.Kind, keys[k].Name, real, model), makeCase(sc, nil, Op{T: opObserve, K: -1}))
+				return false
+			}
+		}
+	}
 	md := modelDump(m0)
 	if md == d0 {
 		return true
@@ -1026,7 +1103,7 @@ func auxPart(d string) string {
 func (x *explorer) explore(sc *scenario, worker int, par func(n int64, fn func(worker int, lo, hi int64)) bool) scenarioResult {
 	r := x.r
 	res := scenarioResult{Name: sc.Name}
-	h0 := x.h(worker)
+	h0 := x.hFor(worker, sc)
 	w0, _ := runPath(h0, sc, nil)
 	d0, k0 := realDump(w0)
 	if !sc.NoModel {
@@ -1066,7 +1143,7 @@ func (x *explorer) explore(sc *scenario, worker int, par func(n int64, fn func(w
 				if ri, ok := sc.Ref[int(oi)]; ok {
 					ref = &sc.Ops[ri]
 				}
-				fail, dump, key := transitionRef(h, sc, path, op, ref, pre)
+				fail, dump, key := transitionRef(freshIf(h, sc), sc, path, op, ref, pre)
 				r.Transitions(1)
 				r.Eval(1)
 				if !sc.NoModel {
